@@ -20,11 +20,18 @@ import (
 // snapshot is conclusive here because no timers or external events are in play (the
 // only timer, ServeConn's negotiation timeout, wakes nobody). Returns false only if
 // the outer wall-clock watchdog fires (inconclusive).
+// spinProbe, if set, lets settle give up early when the code under test is known to be
+// spinning (a livelock never becomes quiet); the caller then decides what that means.
+var spinProbe func() bool
+
 func settle() bool {
 	start := time.Now()
 	for i := 0; ; i++ {
 		if q, _ := mon.QuietNow(); q {
 			return true
+		}
+		if i%200 == 199 && spinProbe != nil && spinProbe() {
+			return false
 		}
 		if i < 50 {
 			runtime.Gosched()
